@@ -174,7 +174,9 @@ type pairSpec struct {
 	nguid    bool                      // rmwEdit changed the disk GUID
 	repair   bool                      // Table.Repair(size) before the write
 	viaDisk  bool                      // write through disk.Disk.Partition instead of Table.Write
-	noRec    bool                      // foreign geometry: leave out the record-level classification
+	noRec    bool                      // foreign geometry: leave out the record-level classification of the 16 KiB-at-LBA-2 reader
+	geo      bool                      // ask the model for the ANY-GEOMETRY record-level classification too (toDiskG + flatReaderG; fields rg=, qg=)
+	notWF    bool                      // the new table's geometry does not satisfy GeomWF on this device (model field wf=)
 	degraded bool                      // the old state may read from the backup only while new != pre.table: trigger of gpt-rewrite-over-degraded-primary (cleared when the old state reads from its primary)
 	finding  string                    // the pair lies on the trigger of this listed finding: no case/impl lines, failures explained by it carry its tag
 	okStages map[int]bool              // the synced writes during which that finding explains a state that reads as an error
@@ -445,6 +447,9 @@ func runPair(c *hx.Ctx, cfg gc.Cfg, p pairSpec) {
 	if p.noRec {
 		args = append(args, "rec=0")
 	}
+	if p.geo {
+		args = append(args, "geo=1")
+	}
 	if p.finding == "" {
 		c.Case(p.id, "gptcrash.pair", args...)
 	}
@@ -537,8 +542,21 @@ func runPair(c *hx.Ctx, cfg gc.Cfg, p pairSpec) {
 	if p.noRec {
 		rAll, qAll = "-", "-"
 	}
+	// rg= / qg= : the same two classifications through the record-level readers of the ANY-GEOMETRY theorems (toDiskG +
+	// flatReaderG for the geometry the new table carries; Proofs/GptGeomCrash.lean); wf= : the model's verdict on GeomWF
+	rgAll, qgAll, wf := "-", "-", "1"
+	if p.geo {
+		rgAll, qgAll = strings.Join(gAll, ","), strings.ToUpper(strings.Join(pAll, ","))
+	}
+	if p.notWF {
+		wf = "0"
+	}
 	if p.finding == "" {
-		c.Impl(p.id, "res=ok", fmt.Sprintf("n=%d", len(groups)), "g="+strings.Join(gAll, ","), "p="+strings.Join(pAll, ","), "r="+rAll, "q="+qAll)
+		c.Impl(p.id, "res=ok", fmt.Sprintf("n=%d", len(groups)), "g="+strings.Join(gAll, ","), "p="+strings.Join(pAll, ","), "r="+rAll, "q="+qAll,
+			"rg="+rgAll, "qg="+qgAll, "wf="+wf)
+		if p.geo {
+			c.Stat("record-level.any-geometry-reader")
+		}
 	}
 	for _, k := range p.regimes {
 		c.Stat(k)
